@@ -256,6 +256,10 @@ def gen_argv(rng, helpers_spec, tier):
             out.append([name] + pre + g)
         for g in rng.sample(GRAPH_BAD, 6 if tier == "quick" else len(GRAPH_BAD)):
             out.append([name] + pre + g)
+        # unreadable input / unwritable output, for every kind of graph argument (always)
+        for g in (["kthlist", "/"], ["/.gml"], ["dimacs", "/nonexistent-dir/g"], GRAPH_OK[gt][0] + ["save", "kthlist", "/"],
+                  GRAPH_OK[gt][0] + ["save", "/nonexistent-dir/x.kthlist"]):
+            out.append([name] + pre + g)
         out.append([name] + pre)
         out.append([name] + ["x"] + GRAPH_OK[gt][0])
     out += [["iso", "complete", "3", "-e", "complete", "3"], ["iso", "complete", "3", "-e"], ["subgraph", "-G", "complete", "4", "-H", "complete", "2"],
@@ -322,7 +326,8 @@ def process_case(rng, tier):
             (["cnfgen", "pitfall", "2", "2", "2", "2", "2"], 255), (["cnfgen", "vdw", "5", "1", "3"], 0),
             (["cnfgen", "php", "glrm", "3", "3", "7"], 0), (["pbgen", "parity", "4"], 0), (["cnfgen", "nosuch"], 255),
             (["cnfgen", "-h"], 0), (["cnfgen", "php", "3", "2", "-T", "nosuch"], 255), (["pbgen", "php"], 255),
-            (["cnfgen", "-of", "latex", "op", "x"], 255)]
+            (["cnfgen", "-of", "latex", "op", "x"], 255), (["cnfgen", "peb", "kthlist", "/"], 255),
+            (["cnfgen", "php", "kthlist", "/"], 255), (["cnfgen", "peb", "pyramid", "2", "save", "kthlist", "/"], 255)]
     if tier == "thorough":
         cmds = cmds * 1
 
